@@ -659,6 +659,21 @@ def _verify_with(eng, key, ctx, timeout_ms, alias, override):
     cs, _, _, _, _ = solve(eng, cov, 5000)
     if cs == "proved":
         res.vacuous = True
+    # ... and at least one exit of the body must be reachable under everything the engine ASSUMED on the way (callee
+    # postconditions, ghost-theory facts, binder closures): if False is derivable on every exit, every obligation of
+    # this function was discharged vacuously (this is how an unsound fact generated by the engine itself shows up)
+    alive = not ex.exits
+    for e in ex.exits:
+        dead = False
+        for mb in (False, True):
+            if solve(eng, Obligation("cover", e.st.pc, z3.BoolVal(False)), 3000, mbqi=mb)[0] == "proved":
+                dead = True
+                break
+        if not dead:
+            alive = True
+            break
+    if not alive:
+        res.vacuous = "every exit of the body is unreachable under the facts assumed on the way (inconsistent assumptions)"
     unproved = 0
     for ob in ex.obligations:
         # short attempts with different seeds first (a query that needs the whole budget is an unstable one)
